@@ -97,13 +97,14 @@ CLAIMED = {
         "completion-type signal of a child is ever sent unless its function returned; if any child raised or refused the caller "
         "does not get a normal return, and a normal return means no child is marked failed; under every delivery/completion "
         "schedule of a DAG-wired composite a child starts only after all its upstream children finished, so nothing downstream of "
-        "a failed child runs. Hand-wired flows with failing nodes (raised or suppressed) are compared with the model; the "
+        "a failed child runs; Free.v (hand-wired flows WITHOUT a parent, signals delivered depth first): a run that returns normally "
+        "called nothing that raised or refused, an exception names a node that raised in that run. Hand-wired flows with failing nodes (raised or suppressed), with and without a parent, are compared with the models; the "
         "oracle checks flags, outputs, error chain and 'nothing downstream ran' on flows and on DAG workflows with executor "
         "children in prescribed completion orders and nested macros.",
    design="7/C06", technique="Coq invariant proofs over the failing-child loop + corollary of the DAG edge-token invariant + differential correspondence + oracle",
-   note="Executor failures, nested macros and suppression at depth are covered by the oracle, not by the Fail.v model. Known "
-        "findings: S6 (executor child's exception swallowed in the callback), S26 (a raising starting node leaves executor "
-        "siblings running), S27 (a re-triggered failed receiver overwrites the original cause)."),
+   note="Executor failures (completion at idle polls, during a local sibling's call, inside submit), nested macros and suppression "
+        "at depth are covered by the oracle, not by the Fail.v model. No open finding: S6, S26, S27 were repaired in /repo "
+        "(46849a9, a65bcde, 6fe5477)."),
  "C17": dict(
    text="Coq theorems over Wrap.v (signature description -> input/output channels, set_input_values vs python's own binding, "
         "output labels declared or scraped, single/multi output storing, run = bare function over every construction/call split "
